@@ -105,7 +105,7 @@ package hashprefix
 //@   ensures clone != nil && clone != m
 // builtFor[x]: the request a rewritten response was made a reply to
 // (CloneForReq sets the reply's ID, question and header bits from it).
-//@ ghost builtFor map[int]int
+// (the ghost is declared with the result types, in filter/internal)
 //@ func (*internal.ResultModifiedResponse).CloneForReq
 //@   modifies heap, builtFor
 //@   ensures clone != nil && clone != m && builtFor[clone] == req && (forall x int :: x != clone ==> builtFor[x] == old(builtFor[x]))
@@ -115,10 +115,13 @@ package hashprefix
 // invisible).
 //@ func (*Filter).clonedResult
 //@   property C07 C12
-//@   requires f != nil && okRes(r)
+//@   requires f != nil && okRes(r) && (isptr(r, internal.ResultModifiedRequest) ==> f.cloner != nil && req != nil && len(req.Question) >= 1)
+// (cached messages are never written: a cached rewritten request still has the question it was stored with)
+//@   atcall CloneForReq assume a-cached-rewritten-request-keeps-its-question: isptr(r, internal.ResultModifiedRequest) ==> asptr(r, internal.ResultModifiedRequest).Msg != nil && len(asptr(r, internal.ResultModifiedRequest).Msg.Question) >= 1
 //@   modifies heap, builtFor
 //@   ensures the-client-gets-its-own-copy: r == nil ? clone == nil : ref(clone) != 0 && ref(clone) != ref(r)
 //@   ensures a-cached-answer-is-rebuilt-for-this-request: isptr(r, internal.ResultModifiedResponse) ==> builtFor[ref(clone)] == req
+//@   ensures a-cached-rewritten-request-is-rebuilt-from-this-request: isptr(r, internal.ResultModifiedRequest) ==> isptr(clone, internal.ResultModifiedRequest) && builtFor[asptr(clone, internal.ResultModifiedRequest).Msg] == req
 
 //@ func (*Filter).itemFromCache
 //@   property C12
@@ -148,7 +151,8 @@ package hashprefix
 //@ pred listedNow(s *Storage, x string) = listedUpTo(curText(s), nlines(curText(s)), x)
 //@ func (*Filter).FilterRequest
 //@   property C12 C11
-//@   requires f != nil && f.resCacheMu != nil && f.logger != nil && f.hashes != nil && ref(f.resCache) != 0 && req != nil && SI(f.hashes)
+//@   requires f != nil && f.resCacheMu != nil && f.logger != nil && f.hashes != nil && ref(f.resCache) != 0 && req != nil && SI(f.hashes) &&
+//@            f.cloner != nil && req.DNS != nil && len(req.DNS.Question) >= 1
 //@   modifies heap, cgetCache, cgetKey, hst, ipBytes, achas, acval, itemVer, cacheVer, lastVerdictVer, builtFor, ptrLoads, cacheServes
 //@   atcall clonedResult set cacheServes = cacheServes + 1
 //@   ensures sound-for-hosts: cacheServes == old(cacheServes) && r != nil ==> (old(req.QType) == 1 || old(req.QType) == 28 || old(req.QType) == 65) && (exists j int :: 0 <= j && j < hsubsLen(old(req.Host)) && listedNow(f.hashes, hsubsAt(old(req.Host), j)))
